@@ -876,6 +876,11 @@ func (ex *Exec) loopOrdinal(fr *Frame, s ast.Stmt) int {
 	return -1
 }
 
+// loopExtraKeys: heap arrays a loop body turned out to write that the syntactic write set missed.
+var loopExtraKeys = map[ast.Stmt]map[string]*Sort{}
+
+type restartVerify struct{}
+
 type loopParts struct {
 	stmt     ast.Stmt
 	label    string
@@ -1058,6 +1063,9 @@ func (ex *Exec) loop(st *State, lp *loopParts, k func(*State)) {
 	}
 	// 2. havoc everything the loop may write
 	ws := ex.writeSetOf(st.frame, lp.written)
+	for k, s := range loopExtraKeys[lp.stmt] {
+		ws.keys[k] = s // ghost state written by anchored ghost code inside the loop (found on an earlier pass)
+	}
 	pre := st.snapshot()
 	for obj := range ws.vars {
 		if v, owner, ok := st.frame.lookupVar(obj); ok {
@@ -1076,7 +1084,14 @@ func (ex *Exec) loop(st *State, lp *loopParts, k func(*State)) {
 			owner.vars[obj] = Val{T: ex.w.freshConst("loop_"+obj.Name(), v.S), S: v.S, Go: v.Go}
 		}
 	}
-	ex.havocHeap(st, pre, ws, nil)
+	var loopTargets []modTarget
+	if len(spec.Modifies) > 0 {
+		loopTargets = ex.specEnvFor(st, fr.fi).evalModifies(&Contract{Modifies: spec.Modifies})
+		if loopTargets == nil {
+			loopTargets = []modTarget{}
+		}
+	}
+	ex.havocHeap(st, pre, ws, loopTargets)
 	// ghost locals updated by the loop's ghost code are havocked like program variables
 	for _, g := range spec.Ghosts {
 		if id, ok := g.LHS.(*SIdent); ok {
@@ -1115,11 +1130,58 @@ func (ex *Exec) loop(st *State, lp *loopParts, k func(*State)) {
 	for _, t := range ts {
 		st.assume(t)
 	}
+	{
+		snaps := map[int]*State{}
+		for k, v := range st.frame.iterSnap {
+			snaps[k] = v
+		}
+		st.frame.iterSnap = snaps
+		snaps[ord] = st.fork()
+	}
+	iterHead := st.frame.iterSnap[ord]
 	checkInv := func(st *State) {
 		// end of an iteration: ghost updates, then the invariant must hold again
 		env := ex.specEnvFor(st, fr.fi)
 		for _, g := range spec.Ghosts {
 			env.ghostUpdate(g)
+		}
+		// every heap array the body changed must have been havocked at the loop head; ghost arrays
+		// written by anchored ghost code are discovered here and the function is re-verified
+		if !ws.all {
+			missed := false
+			for _, key := range sortedKeys(st.heap) {
+				h0, ok := iterHead.heap[key]
+				if !ok || h0 == st.heap[key] || ws.keys[key] != nil || ex.heapS[key] == nil {
+					continue
+				}
+				if loopExtraKeys[lp.stmt] == nil {
+					loopExtraKeys[lp.stmt] = map[string]*Sort{}
+				}
+				loopExtraKeys[lp.stmt][key] = ex.heapS[key]
+				missed = true
+			}
+			if missed {
+				panic(restartVerify{})
+			}
+		}
+		if loopTargets != nil {
+			// the loop-level modifies clause: one iteration changes nothing else
+			var goals, keys []string
+			for _, key := range sortedKeys(st.heap) {
+				if key == "alloc" || key == "arralloc" {
+					continue
+				}
+				h0, ok := iterHead.heap[key]
+				s := ex.heapS[key]
+				if !ok || h0 == st.heap[key] || s == nil || s.Idx == nil {
+					continue
+				}
+				goals = append(goals, ex.frameCond(iterHead, st, key, s, loopTargets))
+				keys = append(keys, key)
+			}
+			if len(goals) > 0 {
+				ex.oblige(st, lname+".frame", nil, sAnd(goals...), "only locations in the loop's modifies clause change: "+strings.Join(keys, ", "), lp.stmt.Pos())
+			}
 		}
 		ts, cs := evalInvs(st, true)
 		for i, t := range ts {
